@@ -438,7 +438,7 @@ static std::string run1(const std::vector<std::string>& a) {
 
 // child of `oom ss_firstuse`: a fresh process whose first secret_string operation has its k-th allocation fail
 static int firstuse_child(long k, const std::string& plainhex, int fd) {
-    alarm(10);                                   // a later operation that never returns is a hang
+    alarm(120);                                  // a later operation that never returns is a hang (generous: the machine may be busy)
     Bytes p = bx(plainhex); std::string res;
     hw::begin(1, k);
     bool failed = false, other = false;
